@@ -277,7 +277,14 @@ func K9() *Entry {
 	AutoComments(f)
 	// Meta and Owner are exported themselves and occur below other exported types through
 	// fields named like the type (README: `Metadata Metadata = 1`)
-	return &Entry{Name: "k9", File: f, Cfg: BaseConfig("User", "Pref", "Meta", "Owner"), Tags: []string{"multi-path", "multi-root", "embed", "time"}}
+	c := BaseConfig("User", "Pref", "Meta", "Owner")
+	// injected attributes of an exported type that also occurs below other exported types, and of one nested path
+	c.InjectedFields = map[string][]ir.Injected{
+		"Meta":           {{Name: "meta_id", Type: "github.com/hashicorp/terraform-plugin-framework/types.StringType", Computed: true}},
+		"Owner":          {{Name: "owner_rank", Type: "github.com/hashicorp/terraform-plugin-framework/types.Int64Type", Optional: true}},
+		"User.Spec.Meta": {{Name: "spec_meta_note", Type: "github.com/hashicorp/terraform-plugin-framework/types.StringType", Optional: true, Computed: true, PlanModifiers: []string{USFU}}},
+	}
+	return &Entry{Name: "k9", File: f, Cfg: c, Tags: []string{"multi-path", "multi-root", "embed", "time"}}
 }
 
 // K10: several roots, unrelated messages, a dependency file (same Go package
